@@ -63,7 +63,16 @@ type c14Task struct {
 	// model, as of the last settle
 	enq     bool // the call was outstanding (enqueued or running, function not finished) at the last settle
 	running bool // the task was executing at the last settle
+	// fairness bookkeeping: qMark is the number of calls made so far when this call was first seen queued at a
+	// quiescent point (-1: not yet); bypass counts calls made after that which nevertheless started before it
+	qMark       int
+	bypass      int
+	startedSeen bool
 }
+
+// c14BypassLimit: a call that sat in the queue while this many calls made after it was (observably) queued were all
+// started ahead of it is being starved — no fair queue discipline does that within one short program.
+const c14BypassLimit = 8
 
 type c14WaitOp struct {
 	id int
@@ -155,7 +164,7 @@ func (m *c14Machine) noteBound(r, mx int32, id int) {
 // ---- actions (no settle)
 
 func (m *c14Machine) doCall(t *rapid.T, forceYield bool) {
-	tk := &c14Task{id: m.nTasks}
+	tk := &c14Task{id: m.nTasks, qMark: -1}
 	m.nTasks++
 	tk.count = rapid.IntRange(1, 4).Draw(t, "count")
 	tk.gated = !forceYield && rapid.IntRange(0, 5).Draw(t, "yieldTask") != 0
@@ -306,6 +315,24 @@ func (m *c14Machine) check() {
 	m.boundMu.Unlock()
 	if bm != "" {
 		m.fail("C14/concurrency-bound", "%s", bm)
+	}
+	// fairness: who started since the last quiescent point, and whom did they overtake
+	for _, tk := range m.live {
+		if tk.starts.Load() >= 1 && !tk.startedSeen {
+			tk.startedSeen = true
+			for _, u := range m.live {
+				if u.starts.Load() == 0 && u.qMark >= 0 && tk.id >= u.qMark {
+					if u.bypass++; u.bypass > c14BypassLimit {
+						m.fail("C14/starved-by-overtaking", "call #%d has been queued since before call #%d was made, and %d calls made after that have been started ahead of it while it still waits (the latest: #%d)", u.id, u.qMark, u.bypass, tk.id)
+					}
+				}
+			}
+		}
+	}
+	for _, tk := range m.live {
+		if tk.starts.Load() == 0 && tk.qMark < 0 {
+			tk.qMark = m.nTasks // every call made from now on was made after this one was seen queued
+		}
 	}
 	R, Q := 0, 0
 	persisted := -1
